@@ -115,6 +115,7 @@ impl Stats {
             self.bump("step_budget_exceeded(inconclusive case)");
             return;
         }
+        early_record(monitor, &signature, &message, &case);
         let c = self.viol_counts.entry(signature.clone()).or_insert(0);
         *c += 1;
         if *c == 1 && self.violations.len() < MAX_VIOLATIONS_KEPT {
@@ -222,6 +223,31 @@ pub struct Spec {
 }
 
 /// Write evidence, print verdict lines, return the exit code (0 held, 1 violated, 3 inconclusive).
+// ------------------------------------------------------------------------- early verdict
+// A violation that has been observed is a verdict even if the rest of the workload never ends (a
+// broken engine can make later cases astronomically slow: structural hashing of a blown-up diagram
+// has no step counter to stop it). Every recorded violation is therefore also kept process-wide;
+// `main` watches this list and, when the run does not finish within a grace period after the first
+// entry, reports what was observed and exits.
+static EARLY: std::sync::Mutex<Vec<Violation>> = std::sync::Mutex::new(Vec::new());
+static EARLY_FIRST: std::sync::OnceLock<std::time::Instant> = std::sync::OnceLock::new();
+
+fn early_record(monitor: &str, signature: &str, message: &str, case: &Value) {
+    if let Ok(mut g) = EARLY.lock() {
+        if g.len() < 8 && !g.iter().any(|v| v.signature == signature) {
+            g.push(Violation { monitor: monitor.to_string(), signature: signature.to_string(), message: message.to_string(), case: case.clone() });
+            let _ = EARLY_FIRST.set(std::time::Instant::now());
+        }
+    }
+}
+
+/// (violations recorded so far, seconds since the first one)
+pub fn early_state() -> (Vec<Violation>, f64) {
+    let v = EARLY.lock().map(|g| g.clone()).unwrap_or_default();
+    let t = EARLY_FIRST.get().map(|i| i.elapsed().as_secs_f64()).unwrap_or(0.0);
+    (v, t)
+}
+
 pub fn finish(ctx: &Ctx, mut st: Stats, spec: Spec, known_replayed: &[(Known, bool)]) -> i32 {
     let known = load_known(ctx);
     let wall = ctx.start.elapsed().as_secs_f64();
